@@ -40,13 +40,13 @@ type Thread struct {
 	pending *Op
 	chosen  int
 	// opDone: pending op was completed on this thread's behalf (rendezvous partner).
-	opDone  bool
-	done    bool
-	idle    bool // pending op is Quiesce: only when nothing else is enabled
+	opDone bool
+	done   bool
+	idle   bool // pending op is Quiesce: only when nothing else is enabled
 	// Low marks an adversary thread of a scenario (a Close, cancel, fault or timer thread): by default it runs
 	// only when no ordinary thread is enabled, and scheduling it at any earlier point costs one deviation; once
 	// running it continues like any other thread until it blocks. "At every instant" then means one deviation.
-	Low bool
+	Low     bool
 	killed  bool
 	started bool
 	fn      func()
@@ -215,6 +215,7 @@ type Sched struct {
 	order      []*Thread
 	lastX      uint64
 	NoBranch   bool
+	advMode    int // 0 undecided, 1 lazy adversaries, 2 eager adversaries
 	timers     []*Timer
 	Diverged   string
 	CapHit     bool
@@ -281,10 +282,20 @@ func NoteStr(s string) { Note(hashStr(s)) }
 // Go starts fn as a new managed thread.
 func Go(fn func()) { GoNamed("", fn) }
 
-// GoLow starts fn as a low-priority (adversary) thread: see Thread.Low.
+// GoLow starts fn as an adversary thread: see Thread.Low. Whether the adversaries of an execution are lazy
+// (low priority: they strike at quiescence by default, any earlier instant costs one deviation) or eager
+// (ordinary threads: they strike as early as the round-robin allows, later instants cost deviations) is a
+// free choice made once per execution, at its first adversary; both families are explored at every bound.
 func GoLow(name string, fn func()) *Thread {
+	if Killing() {
+		return nil
+	}
+	s := S
+	if s.advMode == 0 {
+		s.advMode = 1 + Choose(2)
+	}
 	t := GoNamed(name, fn)
-	if t != nil {
+	if t != nil && s.advMode == 1 {
 		t.Low = true
 	}
 	return t
@@ -585,6 +596,7 @@ func Run(root func(), prefix []int, maxSteps int, logOn bool) *Sched {
 	wdOnce.Do(startWatchdog)
 	atomic.StoreInt32(&wdActive, 1)
 	defer atomic.StoreInt32(&wdActive, 0)
+	epoch++
 	s := &Sched{prefix: prefix, MaxStep: maxSteps, fin: make(chan struct{}, 1), exited: make(chan struct{}, 64), LogOn: logOn}
 	S = s
 	t := &Thread{ID: 0, Name: "root", wake: make(chan struct{}, 1), fn: root, ident: 1}
@@ -612,6 +624,14 @@ func Run(root func(), prefix []int, maxSteps int, logOn bool) *Sched {
 	S = nil
 	return s
 }
+
+var epoch uint32
+
+// Epoch identifies the current execution. Modelled primitives that live in package-level variables of the
+// code under test (a global sync.Pool or mutex) compare it with the epoch they last saw and start every
+// execution in their zero state; otherwise what one execution leaves behind would leak into the next and
+// executions would not be functions of their choice lists.
+func Epoch() uint32 { return epoch }
 
 // BeforeTeardown is called when an execution has ended, before its unfinished threads are killed. Killed
 // threads run their deferred functions with the modelled primitives switched off, so what a per-execution
